@@ -394,6 +394,10 @@ RULES = [
 ]
 
 
+from . import shared
+RULES = RULES + shared.bundle('C08', ['values', 'stride', 'maxpd', 'driver'], ['details'])
+
+
 def run(tier="quick", replay=None):
     return run_check(
         "C08", RULES, tier=tier, replay=replay,
